@@ -1,10 +1,208 @@
 /-
-  Property C20 — sigma-separation (work in progress: skeleton).
+  Property C20 — sigma-separation agrees with d-separation on acyclic graphs; on every mixed graph its verdict is
+  symmetric in the two nodes and never separates two adjacent nodes.
+
+  The theorems are about the executable model `Y0.Model.Sigma` (`MG.sigmaSeparated`) of
+  `y0.algorithm.separation.sigma_separation.are_sigma_separated` AFTER the two `fix:` commits for defect F9
+  (a directed edge with a parallel bidirected edge counts as directed; a collider is open when any descendant is
+  conditioned on), which harness/props/c20.py compares with the Python on every run.
+
+   1. what the model computes, in pure terms, and its exact error taxonomy   (`sigma_eq`, `sigma_missing_node`)
+   2. symmetry on every mixed graph, cyclic or not                            (`sigma_symm`)
+   3. adjacency on every mixed graph                                          (`sigma_adjacent`, `sigma_endpoint_conditioned`)
+   4. agreement with m-separation / d-separation on acyclic graphs            (`sigma_iff_mseparated`, `sigma_iff_dsep_canonical`,
+                                                                               `sigma_agrees_with_dsep`)
 -/
-import Y0.Model.Sigma
+import Y0.Lemmas.SigmaAgree
+import Y0.Props.C04
 
 namespace Y0.MG
+variable {α : Type} [DecidableEq α]
+open Relation
 
-theorem triples_short {α : Type} (a b : α) : triples [a, b] = [] := rfl
+/-! ## 1. the verdict in pure terms -/
+
+/-- the simple paths `nx.all_simple_paths(graph.disorient(), a, b)` enumerates -/
+def sigmaPaths (G : MG α) (a b : α) : List (List α) :=
+  simplePathsU G.disorient.biNbrs b (G.disorient.nodes.length + 1) [] a
+
+theorem disorient_next_closed (G : MG α) :
+    ∀ x ∈ G.disorient.nodes, ∀ y ∈ G.disorient.biNbrs x, y ∈ G.disorient.nodes := by
+  intro x _ y hy
+  have hwf : G.disorient.WF := wf_fromEdges _ _ _
+  rcases (mem_biNbrs_iff G.disorient x y).1 hy with h | h
+  · exact (hwf.bi_mem _ h).2
+  · exact (hwf.bi_mem _ h).1
+
+theorem disorient_next_symm (G : MG α) : ∀ x y, y ∈ G.disorient.biNbrs x → x ∈ G.disorient.biNbrs y := by
+  intro x y h
+  rw [mem_biNbrs_iff] at h ⊢
+  exact Or.symm h
+
+theorem mem_sigmaPaths (G : MG α) (a b : α) (ha : a ∈ G.disorient.nodes) (p : List α) :
+    p ∈ G.sigmaPaths a b ↔ IsSimplePath G.disorient.biNbrs a b p := by
+  constructor
+  · exact isSimplePath_of_mem _ a b _ p
+  · intro h
+    apply mem_of_isSimplePath _ a b _ p h
+    have := isSimplePath_length_le _ G.disorient.nodes (disorient_next_closed G) a b p h ha
+    omega
+
+/-- **What the model computes.**  With both nodes in the graph the test never raises; it says "separated" exactly
+when no simple path of the undirected skeleton is Z-σ-open. -/
+theorem sigma_eq (G : MG α) (hG : G.WF) (a b : α) (C : List α) (ha : a ∈ G.nodes) (hb : b ∈ G.nodes) :
+    G.sigmaSeparated a b C = .ok (!(G.sigmaPaths a b).any (G.pOpen C)) := by
+  have ha' : a ∈ G.disorient.nodes := (mem_nodes_disorient G hG a).2 ha
+  have hb' : b ∈ G.disorient.nodes := (mem_nodes_disorient G hG b).2 hb
+  have hpaths : G.disorient.allSimplePaths a b = .ok (G.sigmaPaths a b) := by
+    simp [allSimplePaths, ha', hb', sigmaPaths]
+  have hany := anyE_ok (G.isZSigmaOpen G.sigmaTable C) (G.pOpen C) (G.sigmaPaths a b) (by
+    intro p hp
+    have hsp := (mem_sigmaPaths G a b ha' p).1 hp
+    apply isZSigmaOpen_ok G hG C p
+    · rintro rfl; simp [IsSimplePath] at hsp
+    · intro x hx
+      exact (mem_nodes_disorient G hG x).1
+        (isSimplePath_subset _ G.disorient.nodes (disorient_next_closed G) a b p hsp ha' x hx))
+  simp [sigmaSeparated, equivalenceClasses_ok, hpaths, hany, bind, Except.bind, pure, Except.pure]
+
+/-- the only failure: an endpoint that is not a node (`NodeNotFound` from `nx.all_simple_paths`); conditions
+outside the graph are ignored -/
+theorem sigma_missing_node (G : MG α) (hG : G.WF) (a b : α) (C : List α) (h : a ∉ G.nodes ∨ b ∉ G.nodes) :
+    G.sigmaSeparated a b C = .error (.internal "NodeNotFound") := by
+  have hmem := mem_nodes_disorient G hG
+  by_cases ha : a ∈ G.nodes
+  · have hb : b ∉ G.nodes := h.resolve_left (fun h => h ha)
+    have ha' := (hmem a).2 ha
+    have hb' : b ∉ G.disorient.nodes := fun h => hb ((hmem b).1 h)
+    simp [sigmaSeparated, equivalenceClasses_ok, allSimplePaths, ha', hb', bind, Except.bind]
+  · have ha' : a ∉ G.disorient.nodes := fun h => ha ((hmem a).1 h)
+    simp [sigmaSeparated, equivalenceClasses_ok, allSimplePaths, ha', bind, Except.bind]
+
+/-! ## 2. symmetry -/
+
+/-- **Symmetry.**  On every mixed graph `from_edges` can build — cycles, self-loops, parallel edges included — and
+for ALL arguments, the outcome (verdict or error) for `(a, b)` is the outcome for `(b, a)`. -/
+theorem sigma_symm (G : MG α) (hG : G.WF) (a b : α) (C : List α) :
+    G.sigmaSeparated a b C = G.sigmaSeparated b a C := by
+  by_cases hab : a ∈ G.nodes ∧ b ∈ G.nodes
+  · obtain ⟨ha, hb⟩ := hab
+    rw [sigma_eq G hG a b C ha hb, sigma_eq G hG b a C hb ha]
+    congr 2
+    have ha' : a ∈ G.disorient.nodes := (mem_nodes_disorient G hG a).2 ha
+    have hb' : b ∈ G.disorient.nodes := (mem_nodes_disorient G hG b).2 hb
+    have key : ∀ x y, x ∈ G.disorient.nodes → y ∈ G.disorient.nodes →
+        (G.sigmaPaths x y).any (G.pOpen C) = true → (G.sigmaPaths y x).any (G.pOpen C) = true := by
+      intro x y hx hy h
+      rw [List.any_eq_true] at h ⊢
+      obtain ⟨p, hp, hopen⟩ := h
+      refine ⟨p.reverse, ?_, by rw [pOpen_reverse]; exact hopen⟩
+      rw [mem_sigmaPaths G y x hy]
+      exact isSimplePath_reverse _ (disorient_next_symm G) x y p ((mem_sigmaPaths G x y hx p).1 hp)
+    rw [Bool.eq_iff_iff]
+    exact ⟨key a b ha' hb', key b a hb' ha'⟩
+  · have h1 : a ∉ G.nodes ∨ b ∉ G.nodes := by
+      by_contra hc; push_neg at hc; exact hab hc
+    rw [sigma_missing_node G hG a b C h1, sigma_missing_node G hG b a C (Or.symm h1)]
+
+/-! ## 3. adjacency -/
+
+/-- **Adjacency.**  On every mixed graph, two distinct nodes joined by an edge (of either kind, either direction),
+neither of them conditioned on, are never reported separated — whatever else is conditioned on. -/
+theorem sigma_adjacent (G : MG α) (hG : G.WF) (a b : α) (C : List α) (hadj : G.Adj a b) (hab : a ≠ b)
+    (ha : a ∉ C) (hb : b ∉ C) : G.sigmaSeparated a b C = .ok false := by
+  obtain ⟨han, hbn⟩ := adj_nodes G hG hadj
+  rw [sigma_eq G hG a b C han hbn]
+  have ha' : a ∈ G.disorient.nodes := (mem_nodes_disorient G hG a).2 han
+  have hp : [a, b] ∈ G.sigmaPaths a b := by
+    rw [mem_sigmaPaths G a b ha']
+    refine ⟨rfl, rfl, by simp [hab], ?_⟩
+    exact List.IsChain.cons_cons ((mem_disorient_biNbrs G a b).2 hadj) (List.isChain_singleton _)
+  have hopen : G.pOpen C [a, b] = true := by
+    simp [pOpen, triples, ha, hb]
+  have : (G.sigmaPaths a b).any (G.pOpen C) = true := List.any_eq_true.2 ⟨[a, b], hp, hopen⟩
+  simp [this]
+
+/-- the hypothesis `a ∉ C`, `b ∉ C` of `sigma_adjacent` is not silently load-bearing: with an endpoint conditioned
+on, every path is closed by definition and the test answers "separated", adjacent or not -/
+theorem sigma_endpoint_conditioned (G : MG α) (hG : G.WF) (a b : α) (C : List α) (ha : a ∈ G.nodes)
+    (hb : b ∈ G.nodes) (h : a ∈ C ∨ b ∈ C) : G.sigmaSeparated a b C = .ok true := by
+  rw [sigma_eq G hG a b C ha hb]
+  have ha' : a ∈ G.disorient.nodes := (mem_nodes_disorient G hG a).2 ha
+  have : (G.sigmaPaths a b).any (G.pOpen C) = false := by
+    rw [List.any_eq_false]
+    intro p hp
+    obtain ⟨h1, h2, _, _⟩ := (mem_sigmaPaths G a b ha' p).1 hp
+    rcases h with h | h <;> simp [pOpen, h1, h2, h]
+  simp [this]
+
+/-! ## 4. agreement with d-separation on acyclic graphs -/
+
+/-- a Z-σ-open simple path is found exactly when an m-connecting path exists (acyclic graphs) -/
+theorem sigma_open_iff_mconn (G : MG α) (hG : G.WF) (hA : G.Acyclic) (a b : α) (C : List α) (ha : a ∈ G.nodes)
+    (hab : a ≠ b) : (G.sigmaPaths a b).any (G.pOpen C) = true ↔ G.MConnPath a b C := by
+  have ha' : a ∈ G.disorient.nodes := (mem_nodes_disorient G hG a).2 ha
+  rw [List.any_eq_true]
+  constructor
+  · rintro ⟨p, hp, hopen⟩
+    obtain ⟨haC, hbC, μ, hw⟩ := mwalk_of_open_path G hG hA C a b ha p ((mem_sigmaPaths G a b ha' p).1 hp) hopen
+    exact mconnPath_of_mconnWalk G C a b hab ((mconnWalk_iff_mwalk G C a b hab).2 ⟨haC, hbC, μ, hw⟩)
+  · intro h
+    obtain ⟨p, hp, hopen⟩ := open_path_of_mconnPath G hG C a b h
+    exact ⟨p, (mem_sigmaPaths G a b ha' p).2 hp, hopen⟩
+
+/-- **Agreement, main clause.**  On every acyclic directed mixed graph, for all distinct nodes `a`, `b` (conditioned
+on or not) the sigma-separation test says "separated" exactly when there is no m-connecting path … -/
+theorem sigma_iff_mseparated (G : MG α) (hG : G.WF) (hA : G.Acyclic) (a b : α) (C : List α) (ha : a ∈ G.nodes)
+    (hb : b ∈ G.nodes) (hab : a ≠ b) (s : Bool) (hs : G.sigmaSeparated a b C = .ok s) :
+    s = true ↔ ¬ G.MConnPath a b C := by
+  rw [sigma_eq G hG a b C ha hb] at hs
+  cases hs
+  rw [← sigma_open_iff_mconn G hG hA a b C ha hab]
+  simp
+
+/-- … i.e. exactly when `a` and `b` are d-separated given `C` in the canonical DAG (true d-separation) -/
+theorem sigma_iff_dsep_canonical (G : MG α) (hG : G.WF) (hA : G.Acyclic) (a b : α) (C : List α) (ha : a ∈ G.nodes)
+    (hb : b ∈ G.nodes) (hab : a ≠ b) (s : Bool) (hs : G.sigmaSeparated a b C = .ok s) :
+    s = true ↔ ¬ G.DConnCanonical a b C := by
+  rw [sigma_iff_mseparated G hG hA a b C ha hb hab s hs, mconn_iff_dconn_canonical G a b C hab]
+
+/-- the two tests of y0 return the same verdict on every query in the property's quantifier -/
+theorem sigma_agrees_with_dsep (G : MG α) (hG : G.WF) (hA : G.Acyclic) (a b : α) (C : List α)
+    (hq : G.ValidQuery a b C) (hab : a ≠ b) (haC : a ∉ C) (hbC : b ∉ C) :
+    G.sigmaSeparated a b C = G.dSeparated a b C := by
+  obtain ⟨s', hs'⟩ := dsep_total G hG a b C hq haC hbC
+  have hs := sigma_eq G hG a b C hq.1 hq.2.1
+  rw [hs, hs']
+  congr 1
+  have h1 := sigma_iff_mseparated G hG hA a b C hq.1 hq.2.1 hab _ hs
+  have h2 := dsep_iff_mseparated G hG a b C hq hab haC hbC s' hs'
+  have : (!(G.sigmaPaths a b).any (G.pOpen C)) = true ↔ s' = true := by rw [h1, h2]
+  cases hx : (!(G.sigmaPaths a b).any (G.pOpen C)) <;> cases s' <;> simp_all
+
+/-! ## non-vacuity -/
+
+/-- a cyclic graph with a parallel pair and a self-loop: `0 → 1 → 2 → 0`, `3 → 0`, `2 ↔ 3`, `1 → 1` -/
+def sigmaExample : MG Nat := fromEdges [] [(0, 1), (1, 2), (2, 0), (3, 0), (1, 1)] [(2, 3)]
+
+example : sigmaExample.WF := wf_fromEdges _ _ _
+example : sigmaExample.Adj 2 3 := Or.inr (Or.inr (Or.inl (by decide)))
+example : sigmaExample.sigmaSeparated 2 3 [0, 1] = .ok false := by decide
+example : sigmaExample.sigmaSeparated 3 1 [0] = sigmaExample.sigmaSeparated 1 3 [0] := by decide
+/-- the F9 witnesses after the fixes: `1 → 0 → 2` with `0 ↔ 2` is open given `∅`; the collider `1 → 0 ← 2` with
+`0 → 3 → 4` is open given `{4}` -/
+example : (fromEdges [] [(1, 0), (0, 2)] [(0, 2)] : MG Nat).sigmaSeparated 1 2 [] = .ok false := by decide
+example : (fromEdges [] [(1, 0), (2, 0), (0, 3), (3, 4)] [] : MG Nat).sigmaSeparated 1 2 [4] = .ok false := by decide
+example : (fromEdges [] [(1, 0), (2, 0), (0, 3), (3, 4)] [] : MG Nat).sigmaSeparated 1 2 [] = .ok true := by decide
+
+/-- the hypotheses of the agreement theorems are satisfiable: the F9a witness is a well-formed acyclic graph -/
+example : (fromEdges [] [(1, 0), (0, 2)] [(0, 2)] : MG Nat).Acyclic := by
+  apply acyclic_of_rank _ (fun v => if v = 1 then 0 else if v = 0 then 1 else 2)
+  intro u v h
+  have h' : (u, v) ∈ [(1, 0), (0, 2)] := by
+    have : (fromEdges [] [(1, 0), (0, 2)] [(0, 2)] : MG Nat).di = [(1, 0), (0, 2)] := by decide
+    rw [DiEdge, this] at h; exact h
+  simp only [List.mem_cons, Prod.mk.injEq, List.not_mem_nil, or_false] at h'
+  rcases h' with ⟨rfl, rfl⟩ | ⟨rfl, rfl⟩ <;> simp
 
 end Y0.MG
